@@ -210,6 +210,14 @@ class Gen:
                 s = " ".join(rng.choice(["alpha:beta", "x=1;", "note", "a/b", "100%", "(k)"]) for _ in range(rng.randint(12, 30)))   # well over 80 columns
             elif r_ < 0.18:
                 s = "".join(rng.choice("aé µΩ°ß") for _ in range(rng.randint(1, 10))).strip() or "é"          # not ASCII
+            if rng.random() < 0.06:
+                # control characters, written the only way YAML allows inside one line: escapes between double quotes
+                s = "".join(rng.choice(["a", "b", " ", "1", "\t", "\t", "\n", "\r"]) for _ in range(rng.randint(1, 8))).strip(" ") or "\t"
+                y = s.replace("\\", "\\\\").replace('"', '\\"').replace("\t", "\\t").replace("\n", "\\n").replace("\r", "\\r")
+                sections["string_constants"].append(f'  {n}: "{y}"')
+                D.strings[n] = s
+                D.features.add("string_constant_with_control_characters")
+                continue
             y = s.replace("'", "''")
             sections["string_constants"].append(f"  {n}: '{y}'")
             D.strings[n] = s
